@@ -338,7 +338,7 @@ class Ctx:
         live: skolem variables the claim is deliberately quantified over although the goal term does not mention them
         (the obligation then reads  forall live. guards(live) -> goal)"""
         goal = as_bool_term(goal)
-        if kind in ("post", "lemma"):
+        if kind == "post":
             self.script_phase = True
         for e in extra_pool:
             self.add_index(e)
